@@ -872,6 +872,8 @@ class Controller:
             return not k
         if self.pos < len(self.prefix):
             val = self.prefix[self.pos]
+            if self.pos == len(self.prefix) - 1 or self.pos in self.prefix_free:
+                self.free_pos.add(len(self.taken))
             self.pos += 1
             self._take(b, val)
             return val
@@ -883,6 +885,7 @@ class Controller:
         if ft and ff:
             self.alts.append(self.taken + [False])
             val = True
+            self.free_pos.add(len(self.taken))
         elif ft:
             val = True
             self.stats['forced'] += 1
@@ -910,9 +913,10 @@ class Controller:
     def run(self, fn):
         """yield (path_condition, result_or_exception) for every feasible path."""
         global CTRL
-        pending = [[]]
+        pending = [([], frozenset())]
         while pending:
-            self.prefix = pending.pop()
+            self.prefix, self.prefix_free = pending.pop()
+            self.free_pos = set()
             self.pos = 0
             self.taken = []
             self.known = {}
@@ -933,7 +937,8 @@ class Controller:
                     out = ('raise', e)
             finally:
                 CTRL = prev
-            pending.extend(self.alts)
+            pending.extend((alt, frozenset(p for p in self.free_pos if p < len(alt))) for alt in self.alts)
+            self.last_free = [self.pc[i] for i in sorted(self.free_pos) if i < len(self.pc)]
             if out[0] != 'infeasible':
                 self.stats['paths'] += 1
                 if self.stats['paths'] > self.max_paths:
@@ -957,6 +962,11 @@ def sym_min(*args, **kw):
     nodes = [lift(x) for x in seq]
     for k in range(len(seq)):
         conj = [cmp('le', nodes[k], nodes[j]) for j in range(len(seq)) if j != k and nodes[j] is not nodes[k]]
-        if not conj or decide(band(*conj) if len(conj) > 1 else conj[0]):
+        if not conj:
+            return seq[k]
+        q = band(*conj) if len(conj) > 1 else conj[0]
+        # which argument is smallest is a genuine case split: no solver time is spent on it
+        CTX.__dict__.setdefault('_cheap', set()).update((q.id, bnot(q).id))
+        if decide(q):
             return seq[k]
     raise Infeasible('no argument is the minimum')
